@@ -70,76 +70,150 @@ func (c *Ctx) thresholdShape(R string) *thresholdShape {
 }
 
 // routeOf classifies a store into the verified map.
+// guardFrame is the frame in which the guards of a counted link are looked for: the threshold function itself, or an
+// unexported helper whose successful call dominates the store (e.g. the certificate route extracted into a function).
+type guardFrame struct {
+	f      *ssa.Function
+	via    ssa.CallInstruction                             // nil for the threshold function itself
+	okAt   func(call ssa.CallInstruction) bool             // call known to have succeeded where the link is counted
+	factAt func(v ssa.Value, want bool) bool               // boolean fact known where the link is counted
+	val    func(v ssa.Value, at ssa.Instruction) ssa.Value // resolved value, mapped to the caller through parameters
+	org    func(v ssa.Value) string                        // access path seen from the caller
+}
+
+func (c *Ctx) guardFrames(s *thresholdShape, mu *ssa.MapUpdate) []guardFrame {
+	direct := guardFrame{f: s.f,
+		okAt:   func(call ssa.CallInstruction) bool { return c.okCallAt(call, mu.Block()) },
+		factAt: func(v ssa.Value, want bool) bool { return c.condAt(v, want, mu.Block()) },
+		val:    func(v ssa.Value, at ssa.Instruction) ssa.Value { return resolve(v, at) },
+		org:    org,
+	}
+	out := []guardFrame{direct}
+	for _, h := range allCalls(s.f) {
+		g := h.Common().StaticCallee()
+		if !c.isStageHelper(g) || !hasErrResult(h) || !c.okCallAt(h, mu.Block()) {
+			continue
+		}
+		h, g := h, g
+		subst := map[*ssa.Parameter]string{}
+		for i, prm := range g.Params {
+			if i < len(h.Common().Args) {
+				subst[prm] = org(h.Common().Args[i])
+			}
+		}
+		rets := c.nilErrReturns(g)
+		out = append(out, guardFrame{f: g, via: h,
+			okAt: func(call ssa.CallInstruction) bool { return c.helperGuarantees(g, call) },
+			factAt: func(v ssa.Value, want bool) bool {
+				if len(rets) == 0 {
+					return false
+				}
+				for _, r := range rets {
+					if !c.condAt(v, want, r.Block()) {
+						return false
+					}
+				}
+				return true
+			},
+			val: func(v ssa.Value, at ssa.Instruction) ssa.Value {
+				x := resolve(v, at)
+				if prm, ok := x.(*ssa.Parameter); ok && prm.Parent() == g {
+					return resolve(h.Common().Args[paramIndex(prm)], h)
+				}
+				return x
+			},
+			org: func(v ssa.Value) string { return orgSubst(v, subst) },
+		})
+	}
+	return out
+}
+
 func (c *Ctx) routeOf(s *thresholdShape, mu *ssa.MapUpdate) (route string, K ssa.Value, vs ssa.CallInstruction, why string) {
+	route, K, vs, why, _ = c.routeOfFrame(s, mu)
+	return
+}
+
+func (c *Ctx) routeOfFrame(s *thresholdShape, mu *ssa.MapUpdate) (route string, K ssa.Value, vs ssa.CallInstruction, why string, frame *guardFrame) {
 	v := resolve(mu.Value, mu)
 	k := resolve(mu.Key, mu)
-	for _, call := range allCalls(s.f) {
-		cc := call.Common()
-		if !cc.IsInvoke() || cc.Method.Name() != "VerifySignature" || resolve(cc.Value, call) != v {
-			continue
-		}
-		if !c.okCallAt(call, mu.Block()) {
-			continue
-		}
-		K = resolve(cc.Args[0], call)
-		vs = call
-		// key route?
-		if ex, ok := K.(*ssa.Extract); ok {
-			if lk, ok := ex.Tuple.(*ssa.Lookup); ok && ex.Index == 0 && lk.CommaOk && org(lk.X) == "p0.Keys" {
+	lastWhy := "no successful VerifySignature of the stored link dominates the store"
+	for _, fr := range c.guardFrames(s, mu) {
+		fr := fr
+		for _, call := range allCalls(fr.f) {
+			cc := call.Common()
+			if !cc.IsInvoke() || cc.Method.Name() != "VerifySignature" || fr.val(cc.Value, call) != v {
+				continue
+			}
+			if !fr.okAt(call) {
+				continue
+			}
+			K = resolve(cc.Args[0], call)
+			vs = call
+			ex, isEx := K.(*ssa.Extract)
+			if !isEx {
+				lastWhy = "verification key comes from " + short(fr.org(K))
+				continue
+			}
+			// key route?
+			if lk, ok := ex.Tuple.(*ssa.Lookup); ok && ex.Index == 0 && lk.CommaOk && fr.org(lk.X) == "p0.Keys" {
 				okv := extractOf(lk, 1)
-				if okv == nil || !c.condAt(okv, true, mu.Block()) {
-					return "", K, vs, "layout.Keys lookup is not checked with comma-ok"
+				if okv == nil || !fr.factAt(okv, true) {
+					return "", K, vs, "layout.Keys lookup is not checked with comma-ok", &fr
 				}
 				id := resolve(lk.Index, lk)
-				if org(id) != "p0.Steps[*].PubKeys[*]" {
-					return "", K, vs, "verification key id is " + org(id) + ", not an element of the current step's PubKeys"
+				if fr.org(id) != "p0.Steps[*].PubKeys[*]" {
+					return "", K, vs, "verification key id is " + fr.org(id) + ", not an element of the current step's PubKeys", &fr
 				}
 				// k == id must hold
 				eq := false
 				if refs := id.Referrers(); refs != nil {
 					for _, r := range *refs {
-						if bo, ok := r.(*ssa.BinOp); ok && bo.Op == token.EQL && ((resolve(bo.X, bo) == k && resolve(bo.Y, bo) == id) || (resolve(bo.Y, bo) == k && resolve(bo.X, bo) == id)) {
-							if c.condAt(bo, true, mu.Block()) {
+						if bo, ok := r.(*ssa.BinOp); ok && bo.Op == token.EQL && ((fr.val(bo.X, bo) == k && resolve(bo.Y, bo) == id) || (fr.val(bo.Y, bo) == k && resolve(bo.X, bo) == id)) {
+							if fr.factAt(bo, true) {
 								eq = true
 							}
 						}
 					}
 				}
 				if !eq {
-					return "", K, vs, "the link is not known to be stored under the authorised key id (no signerKeyID == authorizedKeyID fact)"
+					return "", K, vs, "the link is not known to be stored under the authorised key id (no signerKeyID == authorizedKeyID fact)", &fr
 				}
-				return "key", K, vs, "VerifySignature(layout.Keys[id]) ok, id in step.PubKeys, key == id"
+				return "key", K, vs, "VerifySignature(layout.Keys[id]) ok, id in step.PubKeys, key == id", &fr
 			}
 			// certificate route?
 			if gc, ok := ex.Tuple.(*ssa.Call); ok && ex.Index == 0 && calleeName(gc) == "(in_toto.Signature).GetCertificate" {
 				sigc, si := producer(gc.Call.Args[0], gc)
 				if sigc == nil || si != 0 || !sigc.Common().IsInvoke() || sigc.Common().Method.Name() != "GetSignatureForKeyID" ||
-					resolve(sigc.Common().Value, sigc) != v || resolve(sigc.Common().Args[0], sigc) != k {
-					return "", K, vs, "certificate does not come from the stored link's own signature for the key id it is stored under"
+					fr.val(sigc.Common().Value, sigc) != v || fr.val(sigc.Common().Args[0], sigc) != k {
+					return "", K, vs, "certificate does not come from the stored link's own signature for the key id it is stored under", &fr
 				}
 				// constraint check on K
-				for _, cc2 := range callsIn(s.f, "(in_toto.Step).CheckCertConstraints") {
+				for _, cc2 := range callsIn(fr.f, "(in_toto.Step).CheckCertConstraints") {
 					a := cc2.Common().Args
 					if resolve(a[1], cc2) != K {
 						continue
 					}
-					if !c.okCallAt(cc2, mu.Block()) {
+					if !fr.okAt(cc2) {
 						continue
 					}
-					if org(a[0]) != "p0.Steps[*]" {
-						return "", K, vs, "constraints of " + org(a[0]) + " are checked, not those of the current step"
+					if fr.org(a[0]) != "p0.Steps[*]" {
+						return "", K, vs, "constraints of " + fr.org(a[0]) + " are checked, not those of the current step", &fr
 					}
-					if org(a[2]) != "(*in_toto.Layout).RootCAIDs(p0)" || org(a[3]) != "p2" || org(a[4]) != "p3" {
-						return "", K, vs, "CheckCertConstraints is not called with layout.RootCAIDs() and the two pool parameters: " + org(a[2]) + ", " + org(a[3]) + ", " + org(a[4])
+					if fr.org(a[2]) != "(*in_toto.Layout).RootCAIDs(p0)" || fr.org(a[3]) != "p2" || fr.org(a[4]) != "p3" {
+						return "", K, vs, "CheckCertConstraints is not called with layout.RootCAIDs() and the two pool parameters: " + fr.org(a[2]) + ", " + fr.org(a[3]) + ", " + fr.org(a[4]), &fr
 					}
-					return "cert", K, vs, "VerifySignature(cert) ok, cert = link.GetSignatureForKeyID(key).GetCertificate(), CheckCertConstraints(step, cert, layout.RootCAIDs(), pools) ok"
+					where := ""
+					if fr.via != nil {
+						where = " (inside helper " + fname(fr.f) + ", whose nil result dominates the store)"
+					}
+					return "cert", K, vs, "VerifySignature(cert) ok, cert = link.GetSignatureForKeyID(key).GetCertificate(), CheckCertConstraints(step, cert, layout.RootCAIDs(), pools) ok" + where, &fr
 				}
-				return "", K, vs, "no successful CheckCertConstraints on the verifying certificate dominates the store"
+				return "", K, vs, "no successful CheckCertConstraints on the verifying certificate dominates the store", &fr
 			}
+			lastWhy = "verification key comes from " + short(fr.org(K))
 		}
-		return "", K, vs, "verification key comes from " + short(org(K))
 	}
-	return "", nil, nil, "no successful VerifySignature of the stored link dominates the store"
+	return "", K, vs, lastWhy, nil
 }
 
 func ruleC02_1(c *Ctx) {
@@ -174,14 +248,14 @@ func ruleC02_2(c *Ctx) {
 	fn := fname(s.f)
 	n := 0
 	for _, mu := range s.updates {
-		route, K, _, _ := c.routeOf(s, mu)
-		if route != "cert" {
+		route, K, _, _, fr := c.routeOfFrame(s, mu)
+		if route != "cert" || fr == nil {
 			continue
 		}
 		n++
 		k := resolve(mu.Key, mu)
 		eq := false
-		for _, b := range s.f.Blocks {
+		for _, b := range fr.f.Blocks {
 			for _, in := range b.Instrs {
 				bo, ok := in.(*ssa.BinOp)
 				if !ok || (bo.Op != token.EQL && bo.Op != token.NEQ) {
@@ -192,8 +266,8 @@ func ruleC02_2(c *Ctx) {
 					o := org(v)
 					return strings.HasSuffix(o, ".KeyID") && derives(v, func(x ssa.Value) bool { return x == K }, false)
 				}
-				if (isKID(bo.X) && resolve(bo.Y, bo) == k) || (isKID(bo.Y) && resolve(bo.X, bo) == k) {
-					if c.condAt(bo, bo.Op == token.EQL, mu.Block()) {
+				if (isKID(bo.X) && fr.val(bo.Y, bo) == k) || (isKID(bo.Y) && fr.val(bo.X, bo) == k) {
+					if fr.factAt(bo, bo.Op == token.EQL) {
 						eq = true
 					}
 				}
